@@ -84,16 +84,33 @@ def live_ticket_ids(objs, seen=None, dup=None):
 
 
 def conservation(ctx, mon, case):
-    """Offline checker over the hook log (programs here have no lambdas: one frame)."""
+    """Offline checker over the hook log (programs here have no lambdas: one frame).
+    in = out + held: while an ITER/MAP is running, the elements not yet visited are held by the iterator and are not on the
+    stack, so the step-wise rule (no growth except by TICKET) is applied only to programs without ITER/MAP; the bound
+    'on the stack <= minted so far' is applied to every program."""
     prev = None
+    holds = any(p in mon.prims for p in ('ITER', 'MAP'))
+    minted = {}
     for idx, (prim, snap) in enumerate(mon.events):
         tot, tickets = totals(snap or [])
         ctx.count('conservation_steps')
+        if prim == 'TICKET' and snap:
+            t0, v0 = snap[0] if len(snap[0]) == 2 else (None, None)
+            # the hook snapshot lists the whole frame; the TICKET result sits at the current top = first non-protected slot;
+            # recompute minted as the growth of the stack total over this instruction
+            for key, n in tot.items():
+                grow = n - (prev or {}).get(key, 0)
+                if grow > 0:
+                    minted[key] = minted.get(key, 0) + grow
+        for key, n in tot.items():
+            if n > minted.get(key, 0):
+                ctx.violation('C20|more-on-stack-than-minted|after-' + prim, '%r: %d on the stack, %d minted' % (key[1], n, minted.get(key, 0)), case)
+                return
         for tk, c, n in tickets:
             if n <= 0:
                 ctx.violation('C20|zero-amount-ticket|after-' + prim, 'ticket %r with amount %d after %s' % (c, n, prim), case)
                 return
-        if prev is not None:
+        if prev is not None and not holds:
             for key, n in tot.items():
                 before = prev.get(key, 0)
                 if n > before and prim != 'TICKET':
